@@ -21,7 +21,7 @@ theorem C19_cycle_periodic (paths : List Nat) (hn : 0 < paths.length) (k : Nat) 
   · simp [cycle, hne, List.getElem?_eq_getElem (Nat.mod_lt _ hn)]
   · simp [cycle, hne, Nat.add_mod_right]
 
-theorem range_flatMap_getD' (ps : List Nat) (f : Nat → List Nat) :
+theorem range_flatMap_getD2 (ps : List Nat) (f : Nat → List Nat) :
     (List.range ps.length).flatMap (fun i => f (ps.getD i 0)) = ps.flatMap f := by
   have : (List.range ps.length).map (fun i => ps.getD i 0) = ps := by
     apply List.ext_getElem
@@ -30,7 +30,7 @@ theorem range_flatMap_getD' (ps : List Nat) (f : Nat → List Nat) :
   conv => rhs; rw [← this]
   rw [List.flatMap_map]
 
-theorem flatMap_congr' {α β} (l : List α) (f g : α → List β) (h : ∀ a ∈ l, f a = g a) : l.flatMap f = l.flatMap g := by
+theorem flatMap_congr_mem {α β} (l : List α) (f g : α → List β) (h : ∀ a ∈ l, f a = g a) : l.flatMap f = l.flatMap g := by
   induction l with
   | nil => rfl
   | cons x xs ih =>
@@ -56,8 +56,8 @@ theorem C19_unshuffled_stream (paths : List Nat) (ex : Nat → List Nat) (m : Na
       intro a ha
       rw [List.mem_range] at ha
       rw [Nat.mul_add_mod_self_right, Nat.mod_eq_of_lt ha]
-    rw [flatMap_congr' _ _ _ this]
-    exact range_flatMap_getD' paths ex
+    rw [flatMap_congr_mem _ _ _ this]
+    exact range_flatMap_getD2 paths ex
 
 theorem sb_step_stays (s s' : SB) (l : SBLbl) (h : s.phase = .fill ∨ s.phase = .main) (hl : l ≠ .pull none)
     (hs : SB.step s l = some s') : s'.phase = .fill ∨ s'.phase = .main ∨ s'.phase = .failed := by
